@@ -116,6 +116,9 @@ def naming_task(p, cfg, rec):
             And2(bx, 'g_and', a, b, t)
             if seq:
                 Reg(bx, iname, t, o)
+                if cfg.get('twin'):
+                    # a sibling instance whose name is the other one's name with the generator's instance prefix
+                    Reg(bx, 'i_' + iname, t, bx.wire('o_twin', 2))
             else:
                 Not(bx, 'n0', t, bx.wire('nt', 2))
 
@@ -350,6 +353,9 @@ def tasks_for(tier, seed):
         if paths[0][1] == '' or paths[1][1] == '':
             continue
         t.append(('hierarchy paths %s/%s and %s/%s of one per-instance class with different interfaces' % (paths[0] + paths[1]), pathname_task, {'paths': paths}))
+    for iname in ('stage', 'x', 'i_x', 'w_x'):
+        t.append(('naming reg port_in=a wire=t instance=%s port_out=o with a sibling instance i_%s' % (iname, iname), naming_task,
+                  {'names': ('a', 't', iname, 'o'), 'seq': True, 'twin': True}))
     for depth in (0, 1, 2):
         for value in (3, 200):
             t.append(('module parameter %d handed down through %d structural levels' % (value, depth), param_task, {'depth': depth, 'value': value}))
